@@ -1,8 +1,9 @@
 """C13 Lock holders stop before their lock can be considered stale.
 
 Design: Lock.tla model-checked exhaustively (HolderHasFile, FreshWhileActive, NotStale under clock skew) with
-backend faults; negative twins: refresh that removes before it creates (must violate HolderHasFile) and the "code"
-variant (refresher / expiry-monitor hand-over as implemented; TLC's counterexample is replayed into the real code).
+backend faults; negative twins: refresh that removes before it creates (must violate HolderHasFile) and the blocking
+refresher / expiry-monitor hand-over (restic before 0bbee0d26, found by this check; TLC's counterexample schedule is
+replayed into the real code, which must not show the deadlock).
 Conformance: TLC-generated fault scripts replayed into real lockers in virtual time; every observation (after each
 schedule step, after each mutating lock operation, at the instant a lock context is cancelled) is judged by TLC
 with LockRec13!RecOK = HolderHasFile /\\ FreshWhileActive /\\ ReleasedClean (LockObs.tla)."""
@@ -52,21 +53,21 @@ def run(ctx):
     per_family = ctx.pick(70, 1200)
     with cf.ThreadPoolExecutor(max_workers=2) as ex:
         fd = ex.submit(lc.design_runs, ctx, ctx.pick(["hold1_long"], ["hold1_long", "hold1", "hold2"]),
-                       {"hold1_removefirst": ["InvHolderHasFile"], "hold1_code_emit": ["InvNotStaleEmit"]})
+                       {"hold1_removefirst": ["InvHolderHasFile"], "hold1_blocking_emit": ["InvNotStaleEmit"]})
         fg = ex.submit(lc.generate, ctx, families(ctx), per_family)
         scheds = fg.result()
         design = fd.result()
-    # the counterexample TLC found for the "code" variant of the model is replayed as well
+    # the counterexample TLC found for the blocking hand-over twin is replayed as well
     cex = []
     for tr in ctx.tlc_runs:
-        if tr["cfg"] == "Lock_hold1_code_emit.cfg":
+        if tr["cfg"] == "Lock_hold1_blocking_emit.cfg":
             outp = open(os.path.join(tr["dir"], "tlc.out")).read()
             for j, steps in enumerate(lc.parse_scheds(outp)[:1]):
                 # run on after the violating state so that the real code has time to (not) react
                 steps = steps + [{"op": "tick", "p": 0, "x": False, "k": ""}] * 4
-                cex.append({"id": "cex-code-%d" % j, "fam": "cex", "n": 1, "steps": steps})
+                cex.append({"id": "cex-blockinghandover-%d" % j, "fam": "cex", "n": 1, "steps": steps})
     if not cex:
-        raise verif.MachineryError("no counterexample schedule printed by the code-variant run")
+        raise verif.MachineryError("no counterexample schedule printed by the blocking-handover twin")
     scheds = cex + scheds
     vec = lc.write_scheds(ctx, scheds)
     out = ctx.go_test("internal/repository", "^TestVerif_C13$", tags=lc.TAGS, env={"VERIF_VECTORS": vec}, timeout=3000)
